@@ -185,6 +185,8 @@ def raceSummary (filter : VersionInfo → Bool) (sentTags : List String) (evs : 
   "ok:race|c=" ++ toString (obs.count .connected) ++ "|cfirst=" ++ b01 cfirst ++ "|order=" ++ order ++ "|pong=" ++ pong ++
   "|x=" ++ toString (obs.count .disconnected) ++ "|sends=" ++ (if mono then "mono" else dash (srs.map sendStr) ",") ++
   "|lsrx=" ++ (if wrote == oks then "le" else "ne") ++
+  -- what the peer writes is a sequence of whole frames: a `send` is one critical section on the writer mutex (`CG.Model.PeerConc`)
+  "|wire=ok" ++
   "|after=" ++ (if r.1.flag then "ok" else "err:IllegalState") ++ "|conn=" ++ b01 r.1.flag ++
   "|late=" ++ b01 (obs.contains .connected) ++ "," ++ b01 (obs.contains .disconnected) ++ ",0|panics=0"
 
@@ -195,6 +197,7 @@ def raceTok (t : String) : Option (List Event) :=
   match t.splitOn ":" with
   | ["rld", _] => some [.localDisconnect]
   | ["rls", n, _] => n.toNat?.map fun n => (List.range n).map racePing
+  | ["rlb", n, _, _] => n.toNat?.map fun n => (List.range n).map fun _ => Event.localSend ⟨.plain, "inv/race", true⟩
   | _ => none
 
 /-- all placements of each racing call (kept contiguous) at or after its starting point -/
@@ -331,6 +334,11 @@ def handle (op : String) (a : List String) : Option String :=
       -- base events and the racing calls with their starting positions
       let step := fun (acc : Option (List Event × List (Nat × List Event) × List String)) (t : String) =>
         acc.bind fun (evs, calls, tags) =>
+          if t == "rjoin" then some (evs, calls, tags) else   -- the node waits for the racing threads: no event of the peer
+          -- bursts run while the node is silent and are joined before it goes on: whichever way their sends interleave, the
+          -- sequential model sees the same multiset of successful sends, so they are appended in order (enumerating the
+          -- placements of several 60-event calls inside each other would be millions of identical summaries)
+          if t.startsWith "rlb:" then (raceTok t).map fun call => (evs ++ call, calls, tags) else
           match raceTok t with
           | some call => some (evs, calls ++ [(evs.length, call)], tags)
           | none =>
